@@ -1,6 +1,7 @@
 package props
 
 import (
+	"errors"
 	"fmt"
 	"strings"
 	"time"
@@ -245,7 +246,7 @@ func c09One(ctx *core.Ctx, out *core.Out, cfg Cfg, prog []WStep, desc rtCase, ph
 		switch cl.Name {
 		case "WriteMessage", "NextWriter", "WriteControl", "WriteJSON", "WritePreparedMessage":
 			out.Count("calls_after_close_checked", 1)
-			if cl.Err != ws.ErrCloseSent {
+			if !errors.Is(cl.Err, ws.ErrCloseSent) {
 				return fail("call-after-close:"+cl.Name, fmt.Sprintf("%s at step %d, started after the close had been sent, returned %v instead of ErrCloseSent", cl.Name, cl.Step, cl.Err), nil)
 			}
 		case "Close":
